@@ -31,13 +31,15 @@ macro_rules! float_endpoints {
     }};
 }
 /// K: fns=f32::lerp_unclamped_precise,<&f32>::lerp_unclamped_precise,f32::lerp_precise,f32::lerp_unclamped_precise_inclusive_range
-/// K: inst=f32 | bound=all finite (from,to); factor 0, 1, and any non-NaN factor outside (0,1) for the clamped form
+/// K: inst=f32 | bound=all finite (from,to); factor 0, 1, and any non-NaN factor outside (0,1) for the clamped form | stubs=f32::mul_add -> contract (exact where the product is exact, arbitrary elsewhere)
 /// K: asserts=precise formula returns `from` exactly at 0 and `to` exactly at 1; clamped form saturates
 #[kani::proof]
+#[kani::stub(f32::mul_add, crate::fstub::fma32_contract)]
 fn c12_q_f32_precise_endpoints() { float_endpoints!(f32) }
-/// K: fns=f64::lerp_unclamped_precise,<&f64>::lerp_unclamped_precise | inst=f64 | bound=all finite (from,to); factor 0 and 1
+/// K: fns=f64::lerp_unclamped_precise,<&f64>::lerp_unclamped_precise | inst=f64 | bound=all finite (from,to); factor 0 and 1 | stubs=f64::mul_add -> contract (exact where one factor is 0 or +-1, arbitrary elsewhere)
 /// K: asserts=precise formula returns `from` exactly at 0 and `to` exactly at 1, by value and by reference
 #[kani::proof]
+#[kani::stub(f64::mul_add, crate::fstub::fma64_contract)]
 fn c12_q_f64_precise_endpoints() {
     let (a, b): (f64, f64) = (kani::any(), kani::any());
     kani::assume(a.is_finite() && b.is_finite());
@@ -51,6 +53,7 @@ fn c12_q_f64_precise_endpoints() {
 /// K: fns=f64::lerp_precise,f64::lerp_unclamped_precise_inclusive_range | inst=f64 | bound=all finite (from,to); any non-NaN factor outside (0,1)
 /// K: asserts=clamped precise form returns `from` for every factor <= 0 and `to` for every factor >= 1; range form equals pair form at 1
 #[kani::proof]
+#[kani::stub(f64::mul_add, crate::fstub::fma64_contract)]
 fn c12_t_f64_precise_clamped_endpoints() {
     let (a, b): (f64, f64) = (kani::any(), kani::any());
     kani::assume(a.is_finite() && b.is_finite());
